@@ -39,6 +39,7 @@ type spec struct {
 	Module   string            // generated Lean module (file stem under GoHeader/Gen)
 	DivGuard bool              // emit explicit panic outcome for integer division by zero
 	RetTpl   string            // template applied to a returned value before wrapping ($0), default "$0"
+	Var      string            // when set: translate only the right-hand side of the first `Var := e` inside the function
 }
 
 var goTypes = map[string]string{"uint64": "UInt64", "int64": "Int64", "int": "Int", "bool": "Bool"}
@@ -512,6 +513,22 @@ func translate(root string, sp *spec) (out string, err error) {
 			continue
 		}
 		t := &tr{sp: sp, fset: fset}
+		if sp.Var != "" {
+			var rhs ast.Expr
+			ast.Inspect(fd.Body, func(n ast.Node) bool {
+				as, ok := n.(*ast.AssignStmt)
+				if ok && rhs == nil && as.Tok == token.DEFINE && len(as.Lhs) == 1 && len(as.Rhs) == 1 {
+					if id, ok := as.Lhs[0].(*ast.Ident); ok && id.Name == sp.Var {
+						rhs = as.Rhs[0]
+					}
+				}
+				return rhs == nil
+			})
+			if rhs == nil {
+				return "", fmt.Errorf("%s: %s: no `%s := …` found", sp.File, sp.Func, sp.Var)
+			}
+			return fmt.Sprintf("/-- generated from %s: %s, `%s := …` -/\ndef %s %s :=\n  %s\n", sp.File, sp.Func, sp.Var, sp.Lean, sp.Sig, t.expr(rhs)), nil
+		}
 		body := t.stmts(fd.Body.List, "  ")
 		return fmt.Sprintf("/-- generated from %s: %s -/\ndef %s %s :=\n  %s\n", sp.File, sp.Func, sp.Lean, sp.Sig, body), nil
 	}
